@@ -162,6 +162,35 @@ def check_transition_complete(ctx: Ctx, oid: str) -> None:
                     continue
 
 
+def check_close_published_last(ctx: Ctx, oid: str) -> None:
+    """ChannelFactory._local_close: the event that releases waitclose()/receive() callers (`_receiveclosed.set()`) is the last
+    state change of the transition -- whoever observes the close finds `_closed`, the endmarker and the unregistration already
+    in place (shared: C03.h, C19.f)"""
+    repo = ctx.repo
+    from ..terms import evaluator as _ev
+    flc = repo.func(f"{GB}.ChannelFactory._local_close")
+    with ctx.obligation(oid, "close-published-last") as ob:
+        ev = _ev(repo, flc)
+        nset = 0
+        bad = set()
+        for (pth, st) in ev.run(limit=20000):
+            sets = [e for e in st.events if e.kind == "call" and e.attr == "set" and e.recv is not None and e.recv[0] == "attr" and e.recv[2] == "_receiveclosed"]
+            if not sets:
+                continue
+            nset += 1
+            after = st.events[st.events.index(sets[0]) + 1:]
+            for e in after:
+                late = (e.kind in ("assign", "store", "del") and "." in str(e.target or "")) or \
+                       (e.kind == "call" and (e.attr in ("put", "append", "pop", "_no_longer_opened", "warn") or str(e.callee or "").endswith("_no_longer_opened")))
+                if late and id(e.node) not in bad:
+                    bad.add(id(e.node))
+                    ob.violation(flc, e.node, f"`{str(e)[:70]}` happens after _receiveclosed.set(): a thread released from waitclose()/receive() can still see the channel "
+                                              "open (isclosed() False, send accepted) or miss the endmarker/unregistration",
+                                 construct=f"after set: {norm(e.node)[:60]}")
+        ob.site(flc, flc.node, "_receiveclosed.set() is the last state change of _local_close", paths=nset, ok=not bad)
+        ob.require(nset >= 2, f"{nset} paths of _local_close set the event (floor 2)")
+
+
 def check_endmarker_requeue(ctx: Ctx, oid: str) -> None:
     """an ENDMARKER taken from a channel queue is put back on that queue before leaving (shared: C03.a, C04.k)"""
     repo = ctx.repo
@@ -211,6 +240,7 @@ def check(ctx: Ctx) -> None:
     check_endmarker_requeue(ctx, "C03.a")
 
     check_transition_complete(ctx, "C03.b")
+    check_close_published_last(ctx, "C03.h")
 
     with ctx.obligation("C03.c", "send-refuses-closed") as ob:
         fs = repo.func(f"{GB}.Channel.send")
